@@ -260,7 +260,7 @@ func errClass(err error) string {
 	}
 	s := err.Error()
 	for _, c := range []string{ETableNotExist, EColCount, ETypeMismatch, EIntRange, ERowTooLarge, ETableExists, EDBExists, EDBNotExist, ENoDB, EFieldNotFound,
-		"record already exists", "cache is full", "WAL replay error", "unexpected EOF", "EOF", "unable to find", "decoding error", "table scan error", "unable to parse sql"} {
+		"record already exists", "cache is full", EOpenFiles, "WAL replay error", "unexpected EOF", "EOF", "unable to find", "decoding error", "table scan error", "unable to parse sql"} {
 		if strings.Contains(s, c) {
 			return c
 		}
@@ -701,12 +701,21 @@ func (t *timeline) run() {
 		// on its outcome, but it keeps following the tables - if the statement
 		// is refused nothing may have changed, if it succeeds the observed
 		// contents are adopted. Any other raw non-SELECT ends the modelling.
-		rawDML := s.Kind == KRawSQL && isRawDML(s.SQL) && !t.unmodelled
-		if s.Kind == KRawSQL && !isSelectText(s.SQL) && !rawDML {
+		vague := exp.Vague && !t.unmodelled
+		if vague {
+			w.count("vague_where_adopted_or_unchanged")
+		}
+		rawDML := (s.Kind == KRawSQL && isRawDML(s.SQL) || vague) && !t.unmodelled
+		// a raw CREATE TABLE (a shape the model has no meaning for, e.g. a
+		// column named twice): if it is refused the catalog must be as it was;
+		// if it is accepted the modelling of this run ends
+		rawCreate := s.Kind == KRawSQL && !t.unmodelled && strings.HasPrefix(strings.ToUpper(strings.TrimSpace(s.SQL)), "CREATE TABLE")
+		if s.Kind == KRawSQL && !isSelectText(s.SQL) && !rawDML && !rawCreate {
 			t.unmodelled = true
 			w.count("raw_mutation")
 		}
 		w.BeginStmt(i, s.Kind, in)
+		w.OpenFault = s.OpenFail
 		res := t.exec(s)
 		recOps := append([]byte(nil), w.stmtRecOps...)
 		w.EndStmt()
@@ -766,7 +775,7 @@ func (t *timeline) run() {
 				map[string]string{"how": "panic", "class": panicClass(res.Panic), "loc": res.PanicLoc, "stmt": s.Kind}, i)
 			break
 		}
-		if !exp.Unchecked {
+		if !exp.Unchecked && !exp.Either {
 			if exp.OK && res.Err != nil {
 				if strings.Contains(res.Err.Error(), "row ids exhausted") {
 					// the database has handed out all 2^32 row ids (the counter
@@ -830,7 +839,7 @@ func (t *timeline) run() {
 			if im.Admissible != nil || !im.InStmt || im.StmtIdx != i || t.unmodelled {
 				continue
 			}
-			if s.Kind == KRawSQL {
+			if s.Kind == KRawSQL || vague {
 				im.Skip = true
 				continue
 			}
@@ -899,7 +908,11 @@ func (t *timeline) run() {
 				break
 			}
 		}
-		if db := m.CurDB(); rawDML && db != nil && w.Sess != nil && w.Sess.RelationService != nil && w.Viol == nil {
+		if rawCreate && res.Err == nil {
+			t.unmodelled = true
+			w.count("raw_mutation")
+		}
+		if db := m.CurDB(); (rawDML || rawCreate) && !t.unmodelled && db != nil && w.Sess != nil && w.Sess.RelationService != nil && w.Viol == nil {
 			if res.Err != nil {
 				w.count("raw_dml_refused_checked")
 				if mm := w.compareDB(w.Sess.RelationService, db, "", true); mm != nil && w.Viol == nil {
